@@ -111,7 +111,9 @@ struct Fiber {
     long mutex_ops = 0;                // modelled mutex operations executed
     long blocking_ops = 0;             // contended lock / cv wait / yield executed
     long timed_failures = 0;           // timed lock attempts that gave up
-    long long waited_ns = 0;           // virtual time spent in timed waits that gave up (each consumes its full duration)
+    long long waited_ns = 0;
+    long last_timeout_step = -1;
+    bool fault_window = false;         // this fiber is inside a region where windowed faults may fire       // global step at which this fiber's latest timed wait was declared timed out           // virtual time spent in timed waits that gave up (each consumes its full duration)
     char eh[32];
     void* asan_fake = nullptr;
     int prio = 0;
@@ -140,6 +142,7 @@ struct Runtime {
     int rr_next = 0;
     long fault_counter = 0;
     bool faults_off = false;           // set by a harness before its final observation phase
+    bool faults_need_window = false;   // faults fire only while the current fiber has opened a fault window
     std::vector<FreedBlock> freed;
     std::vector<MutexCore*> mutexes;   // modelled mutexes constructed during the case, in construction order
     // pct
@@ -279,7 +282,7 @@ inline Fiber* pick() {
             for (Fiber* f : R.fibers)
                 if (!f->done && !f->frozen && f->timed && !f->timeout_fired &&
                     (f->pend == P_TLOCK || f->pend == P_TLOCK_SHARED || f->pend == P_CV)) {
-                    f->timeout_fired = true; R.res.timeouts_fired++; fired = true; break;
+                    f->timeout_fired = true; f->last_timeout_step = R.res.steps; R.res.timeouts_fired++; fired = true; break;
                 }
             if (fired) continue;
             pass = 1;
@@ -348,7 +351,7 @@ inline void tick_patience() {
     for (Fiber* f : R.fibers) {
         if (f->done) continue;
         if (f->timed && !f->timeout_fired && f->patience >= 0) {
-            if (f->patience == 0) { f->timeout_fired = true; R.res.timeouts_fired++; }
+            if (f->patience == 0) { f->timeout_fired = true; f->last_timeout_step = R.res.steps; R.res.timeouts_fired++; }
             else f->patience--;
         }
         if (f->pend == P_CV && !f->notified && f->spurious_in >= 0) {
@@ -430,7 +433,7 @@ inline Fiber* alloc_fiber() {
     f->id = (int)idx; f->started = false; f->done = false; f->pend = P_NONE; f->pm = nullptr; f->pcv = nullptr;
     f->join_target = -1; f->join_status = 0; f->clock.clear(); f->yielded = false; f->frozen = false; f->freeze_at = -1;
     f->own_steps = 0; f->last_run = 0; f->patience = -1; f->timed = false; f->timeout_fired = false; f->notified = false; f->spurious_in = -1;
-    f->held = 0; f->mutex_ops = 0; f->blocking_ops = 0; f->timed_failures = 0; f->waited_ns = 0; f->asan_fake = nullptr; f->prio = 0;
+    f->held = 0; f->mutex_ops = 0; f->blocking_ops = 0; f->timed_failures = 0; f->waited_ns = 0; f->last_timeout_step = -1; f->fault_window = false; f->asan_fake = nullptr; f->prio = 0;
     std::memset(f->eh, 0, sizeof f->eh);
 #ifdef VRT_ASAN
     __asan_unpoison_memory_region(f->stack, f->stack_size);
@@ -504,11 +507,12 @@ inline void yield_now() {
 }
 
 // fault injection
-enum FaultKind : unsigned { F_FUNCTOR = 1, F_COPY = 2, F_ASSIGN = 4, F_COMPARE = 8, F_CALLBACK = 16, F_PRED = 32, F_DTOR = 64 };
+enum FaultKind : unsigned { F_FUNCTOR = 1, F_COPY = 2, F_ASSIGN = 4, F_COMPARE = 8, F_CALLBACK = 16, F_PRED = 32, F_DTOR = 64, F_ALLOC = 128 };
 inline void fault_point(unsigned kind) {
     Runtime& R = rt();
     if (!R.active || !R.spec->fault_k || R.faults_off) return;
     if (!(kind & R.spec->fault_mask)) return;
+    if (R.faults_need_window && !(R.cur && R.cur->fault_window)) return;
     if (++R.fault_counter == R.spec->fault_k) { R.res.faults_fired++; throw InjectedFault{(int)R.fault_counter}; }
 }
 
@@ -524,7 +528,7 @@ inline Result run(const SchedSpec& spec, std::function<void()> body) {
     R.res = Result();
     R.abandoned = false;
     R.rr_mode = false; R.rr_next = 0;
-    R.fault_counter = 0; R.faults_off = false;
+    R.fault_counter = 0; R.faults_off = false; R.faults_need_window = false;
     R.freed.clear();
     R.mutexes.clear();
     R.pct_change.clear(); R.pct_low = 0;
